@@ -390,7 +390,7 @@ def main(run):
     lines.append("window")
     meta.append(("window", None, None))
 
-    nlat = 10000 if thorough else 900
+    nlat = 10000 if thorough else 800
     wcap = 20000 if thorough else 3000  # largest box (lattice points) for which the per-lattice window certificate is evaluated
     win_checked = False
     made = 0
@@ -636,7 +636,15 @@ def main(run):
                     first = [int(x) for x in np.argwhere(wrong)[0]]
                 else:
                     # vectors: every pair (single images vectorised, ties pair by pair)
-                    for i, j in np.argwhere(~grey):
+                    single = (mexp == 1) & ~grey
+                    ii, jj = np.nonzero(single)
+                    want1 = vall[ii, jj, sel[ii, jj].argmax(axis=1)]
+                    got1 = dsv[dmu[ii, jj, 1]] if name == "True" else ssv[ii, jj, 0]
+                    bad1 = np.abs(got1 - want1).max(axis=1) > 3e-5
+                    nwrong += int(bad1.sum())
+                    if bad1.any():
+                        first = [int(ii[bad1][0]), int(jj[bad1][0])]
+                    for i, j in np.argwhere((mexp > 1) & ~grey):
                         if not same_set(getv(i, j), vall[i, j][sel[i, j]], 30.0):
                             nwrong += 1
                             first = first or [int(i), int(j)]
